@@ -246,7 +246,8 @@ class LiteralMarshaller(AbstractMarshaller[LiteralT], tp.Generic[LiteralT]):
         Raises:
             ValueError: If `val` is not a member of the bound `Literal` type.
         """
-        if val in self.values:
+        # Equality alone would emit e.g. `Decimal("1.0")` or `True` for `Literal[1]`.
+        if any(val == v and val.__class__ is v.__class__ for v in self.values):
             return val  # type: ignore[return-value]
 
         raise ValueError(f"{val!r} is not one of {self.values!r}")
